@@ -39,6 +39,7 @@ class S:
         self.next = 1          # next vmod id
         self.clone = None      # dict(a,b,t,u) or None
         self.ret = None        # object held by the returned-value holder of the context (the host never collects it)
+        self.kept = None       # object a local of fkeep's cached run-time context still refers to
         self.created = []
         self.maybe_temp = set()  # ids that are unreferenced but may still sit in the temporary pool
 
@@ -69,7 +70,7 @@ class S:
             if v not in ren:
                 ren[v] = len(ren) + 1
             return ren[v]
-        k = [r(self.a), r(self.b), None if self.t is None else [r(x) for x in self.t], r(self.u), r(self.ret)]
+        k = [r(self.a), r(self.b), None if self.t is None else [r(x) for x in self.t], r(self.u), r(self.ret), r(self.kept)]
         if self.clone:
             c = self.clone
             k.append([r(c.a), r(c.b), None if c.t is None else [r(x) for x in c.t], r(c.u)])
@@ -209,6 +210,15 @@ def _s_fnew(s):
 def _s_keep(s):
     if s.a is None:
         return False
+    s.kept = s.a
+
+
+def _s_redefine_keeper(s):
+    # the function whose cached context holds an object is defined again (same name, same parameters) by a later text: the contexts
+    # cached for the old definition go, and what they held with them
+    if s.kept is None:
+        return False
+    s.kept = None
 
 
 def _s_add(s):
@@ -361,6 +371,7 @@ STMTS = {
     "make": ("b = a.make();", _s_make),
     "fnew": ("a = fnew(7);", _s_fnew),
     "callee-keeps": ("zz = fkeep(a);", _s_keep),
+    "redefine-keeper": ("function fkeep(o:vmod) return integer is begin k = o; return k.id(); end;", _s_redefine_keeper),
     "add": ('zz = a.add(5, "str", 2.5, true, raw("xy"));', _s_add),
     "tab-of-temp": ("t = tab(2, vmod(8));", _s_tabtemp),
     # loops that are refused when they start (a protected iterator) or die in their body with an error no handler takes
